@@ -769,7 +769,7 @@ func (w *world) mkClaim(n, h uint64, sp claimSpec, bridger string) crosschaintyp
 			To: crosschaintypes.ExternalAddrToStr(w.chain, sp.contract.Bytes()), Data: "", Value: sdkmath.OneInt(), Memo: "", TxOrigin: w.sender}
 	case sp.kind == "o":
 		token := sp.token
-		if h%3 == 2 {
+		if h%3 == 2 || (h == 0 && n%5 == 0) {
 			token = w.modToken // already registered: the event is observed, its handler fails ("bridge token is exist")
 		}
 		return &crosschaintypes.MsgBridgeTokenClaim{EventNonce: n, BlockHeight: ext, TokenContract: token, Name: "T", Symbol: fmt.Sprintf("S%dX%d", n, h),
@@ -843,7 +843,11 @@ func (w *world) opClaim(wrapper, inner int, n, h uint64, kind string) string {
 		}
 	}
 	before := w.snapshot()
+	nAtts := len(w.atts())
 	res, _ := w.route(&crosschaintypes.MsgClaim{ChainName: w.chain, BridgerAddress: wa.String(), Claim: anyv})
+	if len(w.atts()) < nAtts {
+		w.out.Count("claim:pruned-attestations")
+	}
 	if lo2 := w.k.GetLastObservedEventNonce(w.s.Ctx); lo2 != w.prevLo {
 		for k, s2 := range w.specs {
 			if s2.kind == "c" && k[0] <= lo2 {
@@ -2018,6 +2022,10 @@ func TestC01(t *testing.T) {
 			if hx.Tier() == "thorough" && rng.Intn(10) == 0 {
 				nO = 10 + rng.Intn(30)
 				steps = 300
+				if rng.Intn(8) == 0 {
+					nO = 100 // MaxOracleSize-scale set
+					out.Count("oracles=100")
+				}
 			}
 			w := runRandom(t, s, out, rng, chain, steps, nO)
 			if it%5 == 0 {
